@@ -2365,7 +2365,19 @@ class Kconfig(object):
         # A separate helper function is neater than complicating write_config()
         # by passing a flag to it, plus we only need to look at symbols here.
 
-        self._write_if_changed(os.path.join(path, "auto.conf"), self._old_vals_contents())
+        # auto.conf is the only record of what the previous sync saw, so it is
+        # replaced atomically: an interrupted sync must leave the old record in
+        # place rather than a truncated or partially written one, or changes
+        # would be missed when sync_deps() is rerun.
+        filename = os.path.join(path, "auto.conf")
+        contents = self._old_vals_contents()
+        if self._contents_eq(filename, contents):
+            return
+
+        tmp_filename = filename + ".tmp"
+        with open(tmp_filename, "w", encoding=self._encoding) as f:
+            f.write(contents)
+        os.replace(tmp_filename, filename)
 
     def _old_vals_contents(self):
         # _write_old_vals() helper. Returns the contents to write as a string.
